@@ -319,14 +319,15 @@ func init() {
 			pool := explore.NewPool(0, "worker", "C15")
 			defer pool.Close()
 			quick := c.Tier == "quick"
-			maxLen := 3
+			maxLen := 4
 			tripleLen := 3
+			adjLen := 3
 			if !quick {
-				maxLen = 4
+				tripleLen = 4
 			}
 			nk := len(c15Keys(maxLen))
 			nt := len(c15Keys(tripleLen))
-			nadj := len(c15KeysOf(c15UsersOver(c15AdjAlpha, 2)))
+			nadj := len(c15KeysOf(c15UsersOver(c15AdjAlpha, adjLen)))
 			var tasks []c15Task
 			for _, k := range harness.ComparerNames {
 				for from := 0; from < nk; from += 40 {
@@ -334,8 +335,8 @@ func init() {
 					tasks = append(tasks, c15Task{Cmp: k, Kind: "sep", MaxLen: maxLen, From: from, To: from + 40})
 				}
 				for from := 0; from < nadj; from += 40 {
-					tasks = append(tasks, c15Task{Cmp: k, Kind: "pairs", MaxLen: 2, From: from, To: from + 40, Adj: true})
-					tasks = append(tasks, c15Task{Cmp: k, Kind: "sep", MaxLen: 2, From: from, To: from + 40, Adj: true})
+					tasks = append(tasks, c15Task{Cmp: k, Kind: "pairs", MaxLen: adjLen, From: from, To: from + 40, Adj: true})
+					tasks = append(tasks, c15Task{Cmp: k, Kind: "sep", MaxLen: adjLen, From: from, To: from + 40, Adj: true})
 				}
 				step := 8
 				for from := 0; from < nt; from += step {
@@ -385,7 +386,7 @@ func init() {
 			c.Coverage["comparers"] = harness.ComparerNames
 			c.SetExhaustive(exh && done == len(tasks))
 			c.Sample(map[string]any{"user_keys": []string{"", "\\x00", "a", "\\xff", "\\x00a", "a\\xff\\xff"}, "seqs": c15Seqs, "kinds": []string{"del", "val"}})
-			c.Coverage["rule"] = "states = internal keys x comparers (all strings over {0x00,'a',0xff} of length <=3 (thorough: <=4 for the pair laws) x seq {0,1,2,2^56-1} x {del,val} = 320 keys, 5 comparers; plus, for the pair and separator laws, a second universe of all strings over {0x00,0x01,'a','b',0xfe,0xff} of length <=2 - neighbouring bytes and the 0xff ceiling, where shortening flips between possible and impossible); transitions = individual law evaluations: antisymmetry / identity / user-key-major newest-first / probe placement on all ordered pairs, transitivity on all triples of the length<=3 universe, a<=Separator(a,b)<b and Successor(b)>=b on all ordered pairs for the internal and the user comparers, and Find of every stored key in every table of <=4 one-entry blocks over a 24-key sub-universe (index keys are the shortened separators)"
+			c.Coverage["rule"] = "states = internal keys x comparers (all strings over {0x00,'a',0xff} of length <=4 x seq {0,1,2,2^56-1} x {del,val} = 968 keys, 5 comparers; plus, for the pair and separator laws, a second universe of all strings over {0x00,0x01,'a','b',0xfe,0xff} of length <=3 (2072 keys) - neighbouring bytes and the 0xff ceiling, where shortening flips between possible and impossible); transitions = individual law evaluations: antisymmetry / identity / user-key-major newest-first / probe placement on all ordered pairs, transitivity on all triples of the length<=3 universe (thorough: length<=4), a<=Separator(a,b)<b and Successor(b)>=b on all ordered pairs for the internal and the user comparers, and Find of every stored key in every table of <=4 one-entry blocks over a 24-key sub-universe (index keys are the shortened separators)"
 			c.Assume = []string{"the five comparers satisfy the documented Comparer contract (their Separator/Successor laws are checked too)"}
 		},
 	})
